@@ -36,6 +36,10 @@ type scen struct {
 	// LateReader: the application starts reading only when the remote has sent all its frames (more than the receive
 	// queue holds: the stream is still all of them, in order)
 	LateReader bool `json:"latereader"`
+	// Commands: while the application writes, another goroutine asks the TNC for its version this many times (commands and
+	// data share the serial line: every frame arrives whole, prefix to CRC)
+	Commands int `json:"commands"`
+	SlowLine bool `json:"slowline"`
 	// IdleSeconds: ... and stays away for this long (the library gives a full receive queue one minute, then it
 	// disconnects; whatever it does, the process survives)
 	IdleSeconds int `json:"idleseconds"`
@@ -131,6 +135,9 @@ func runScenarioWatched(sc scen) []rec.Event {
 	var evs []rec.Event
 	add := func(ev rec.Event) { evs = append(evs, ev) }
 	sim, host := NewSerialSim()
+	sim.mu.Lock()
+	sim.SlowLine = sc.SlowLine
+	sim.mu.Unlock()
 	sim.ConnectReply = sc.Reply
 	if sim.ConnectReply == "" {
 		sim.ConnectReply = "ok"
@@ -212,6 +219,22 @@ func runScenarioWatched(sc scen) []rec.Event {
 		sim.mu.Lock()
 		sim.CRCFaults = sc.CRCFaults
 		sim.mu.Unlock()
+		cmdsDone := make(chan int, 1)
+		if sc.Commands > 0 {
+			go func() {
+				okN := 0
+				for c := 0; c < sc.Commands; c++ {
+					if guard(func() {
+						if _, err := tnc.Version(); err == nil {
+							okN++
+						}
+					}) != "" {
+						break
+					}
+				}
+				cmdsDone <- okN
+			}()
+		}
 		for i, n := range sc.Writes {
 			p := pattern(i, n)
 			var k int
@@ -229,6 +252,14 @@ func runScenarioWatched(sc scen) []rec.Event {
 				accepted = append(accepted, p[:k]...)
 			} else {
 				break
+			}
+		}
+		if sc.Commands > 0 {
+			select {
+			case okN := <-cmdsDone:
+				add(rec.Event{"op": "Api", "call": "Version (while writing)", "ok": okN == sc.Commands, "panic": "", "err": fmt.Sprintf("%d of %d answered", okN, sc.Commands)})
+			case <-time.After(15 * time.Second):
+				add(rec.Event{"op": "Api", "call": "Version (while writing)", "ok": false, "panic": "", "err": "did not return"})
 			}
 		}
 		if sc.Script == "stale-report-crcfault" {
@@ -781,6 +812,9 @@ func Main(args []string) int {
 		s.Buffers = []int{70, 35}
 		s.CloseUnflushed = true
 	})
+	mk(func(s *scen) { s.Kind = "outbound"; s.Writes = []int{3000, 3000, 3000, 50, 3000}; s.Commands = 60 })
+	mk(func(s *scen) { s.Kind = "outbound"; s.Writes = []int{70000}; s.Commands = 200 })
+	mk(func(s *scen) { s.Kind = "outbound"; s.Writes = []int{800, 800, 800, 800, 800, 800}; s.Commands = 150; s.SlowLine = true })
 	mk(func(s *scen) {
 		s.Kind = "inbound"
 		s.Frames = make([]int, 4300)
